@@ -193,12 +193,12 @@ static std::string gen_format(struct vr *v, struct verif_report *r)
 {
 	std::string f;
 	int ntok = 1 + vr_u8(v) % 8;
-	static const char dirs[] = "nflptTbgNPHbbpzq%";
+	static const char dirs[] = "nflptTbgNPHbbpzq% +-";	/* blank and sign are not part of the directive grammar: unknown directives, the digits after them are literal text */
 	for (int i = 0; i < ntok; i++) {
 		unsigned k = vr_u8(v) % 8;
 		if (k <= 2) {		/* literal */
-			static const char *lits[] = { " ", "[", "] ", ": ", "x", "libqb ", "-", "\n", "100 " };
-			f += lits[vr_u8(v) % 9];
+			static const char *lits[] = { " ", "[", "] ", ": ", "x", "libqb ", "-", "\n", "100 ", "6n|", "3b", "12N " };
+			f += lits[vr_u8(v) % 12];
 		} else if (k == 3 && vr_u8(v) % 6 == 0) {	/* long literal */
 			size_t n = 200 + vr_u16(v) % 3000; f.append(n, 'L'); VCLASS(r, K_LONGFMT);
 		} else {		/* directive */
